@@ -42,11 +42,28 @@ func vh_C09_space() {
 	// the self call in the default arm, or in a predicate-guarded arm
 	core := []string{`(cond (<= n 0) acc (f (- n 1) (+ acc n)))`, `(cond (> n 0) (f (- n 1) (+ acc n)) acc)`,
 		`(cond (< n 0) 0 (> n 0) (f (- n 1) (+ acc n)) acc)`}[vChoice("core", 3)]
+	// the function's signature and the shape of its self call: fixed
+	// parameters; variadic with no, one and two rest arguments passed on
+	params, first := `[n acc]`, `(f 9001 9002)`
+	switch vChoice("signature", 5) {
+	case 1:
+		params, first = `[n & opts]`, `(f 9001)`
+		core = `(cond (<= n 0) 0 (f (- n 1)))`
+	case 2:
+		params, first = `[n & opts]`, `(f 9001 9002)`
+		core = `(cond (<= n 0) 0 (f (- n 1) n))`
+	case 3:
+		params, first = `[n acc & opts]`, `(f 9001 9002)`
+		core = `(cond (<= n 0) acc (f (- n 1) (+ acc n)))`
+	case 4:
+		params, first = `[n acc & opts]`, `(f 9001 9002 1 2)`
+		core = `(cond (<= n 0) acc (f (- n 1) (+ acc n) n acc))`
+	}
 	body := vReplace(w1, "E", vReplace(w2, "E", core))
 	n := vInt64("n")
 	vAssume(n >= 3)
 	acc := vInt64("acc")
-	forms := vT(env, `(defn f [n acc] (probe) `+body+`) (f 9001 9002)`, &SexpInt{Val: n}, &SexpInt{Val: acc})
+	forms := vT(env, `(defn f `+params+` (probe) `+body+`) `+first, &SexpInt{Val: n}, &SexpInt{Val: acc})
 	for _, f := range forms {
 		_, err, p := vEval(env, f)
 		vAssert(!p, "space-no-panic")
